@@ -287,6 +287,25 @@ def m_kwargs_param(draw, ir):
     ir["params"].append(p)
 
 
+def m_kwargs_sole_default(draw, ir):
+    """A trailing **kwargs-style parameter (None) after parameters that have NO default: nothing earlier in the text can
+    lend it one."""
+    keep = [p for p in ir["params"] if not p["name"].endswith("kwargs") and p.get("typ") in ("int", "str", "float")][:2]
+    if not keep:
+        keep = [_new_param(draw, ir, draw(st.sampled_from(("int", "str", "float"))))]
+    for p in keep:
+        p.pop("default", None)
+    kw = OrderedDict(name=draw(st.sampled_from(("kwargs", "data_loader_kwargs"))), typ="Optional[dict]", doc=draw(prose()))
+    kw["default"] = None
+    ir["params"] = keep + [kw]
+
+
+def m_kwargs_sole_default_bare(draw, ir):
+    """The same with a **kwargs-style parameter that has a type but no prose."""
+    m_kwargs_sole_default(draw, ir)
+    ir["params"][-1].pop("doc", None)
+
+
 def _short_type(draw):
     typ, _ = draw(type_and_defaults())
     return typ if len(typ) <= 58 else draw(st.sampled_from(SCALARS))  # long types are the knob `long_type`
